@@ -1,8 +1,1059 @@
-//! (stub) family `faults` - see CONTRIBUTING.md
-use anyhow::{bail, Result};
+//! C03 driver: storage-fault enumeration.
+//!
+//! `FaultyStorage` wraps a real `Storage` (in-memory or file system) and a `FaultyFile` wraps every
+//! file it hands out. While the controller is switched on (only for the duration of the API call
+//! under test) every fallible trait call - storage level and file level - gets the next call
+//! number; call number i of the armed plan fails either *before* it is forwarded (no effect) or
+//! *after* it was forwarded (effect happened, error reported).
+//!
+//! For every scenario (uncounted fault-free prefix that builds committed state, then a short
+//! seeded call sequence) a clean run counts N calls; then the scenario is re-run from scratch for
+//! every i < N x {before, after} (and, with --pairs, for ordered pairs: the second index ranges
+//! over the calls of the run with the first fault armed, so the error branches are reached).
+//! After EVERY call the driver records, with faults off: the contents a new reader on the same
+//! Index sees, the contents after `Index::open_with_storage` on the same storage object, whether
+//! every file the reopened manifest references exists, and the operations a new writer would
+//! recover from wal.log. A fault-free `commit` (on the live handle, or on a new one) ends each run.
+//!
+//! This file only drives and records; every verdict is spec/Trace_Fault.tla's. Runs whose recorded
+//! events are identical (apart from the call numbers) are written once with a multiplicity.
 
-use crate::util::Args;
+use std::collections::BTreeMap;
+use std::io::{Read, Seek, SeekFrom, Write};
+use std::panic::{catch_unwind, AssertUnwindSafe};
+use std::path::{Path, PathBuf};
+use std::sync::Arc;
 
-pub fn main(_args: &Args) -> Result<()> {
-  bail!("family faults is not implemented yet")
+use anyhow::{anyhow, bail, Result};
+use parking_lot::Mutex;
+use rand::Rng;
+use serde_json::{json, Value};
+
+use searchlite_core::api::types::StorageType;
+use searchlite_core::api::{Index, IndexWriter};
+use searchlite_core::storage::{DynFile, FsStorage, InMemoryStorage, Storage, StorageFile};
+use searchlite_core::wal::{Wal, WalEntry};
+
+use crate::history::schema_family;
+use crate::util::*;
+
+// -------------------------------------------------------------------------------------------------
+// fault controller
+// -------------------------------------------------------------------------------------------------
+
+#[derive(Clone, Copy, PartialEq, Eq, Debug, PartialOrd, Ord)]
+pub enum When {
+  Before,
+  After,
+}
+
+impl When {
+  fn s(self) -> &'static str {
+    match self {
+      When::Before => "before",
+      When::After => "after",
+    }
+  }
+  fn parse(s: &str) -> Result<When> {
+    match s {
+      "before" => Ok(When::Before),
+      "after" => Ok(When::After),
+      o => bail!("bad fault position {o}"),
+    }
+  }
+}
+
+#[derive(Clone, Debug)]
+struct Hit {
+  i: usize,
+  name: &'static str,
+  cls: String,
+  when: When,
+}
+
+#[derive(Default)]
+struct Ctl {
+  on: bool,
+  count: usize,
+  plan: Vec<(usize, When)>,
+  hits: Vec<Hit>,
+  keep_log: bool,
+  log: Vec<(&'static str, String)>,
+}
+
+enum Gate {
+  Pass,
+  Before(String),
+  After(String),
+}
+
+type Shared = Arc<Mutex<Ctl>>;
+
+fn gate(ctl: &Shared, name: &'static str, cls: &str) -> Gate {
+  let mut c = ctl.lock();
+  if !c.on {
+    return Gate::Pass;
+  }
+  let i = c.count;
+  c.count += 1;
+  if c.keep_log {
+    c.log.push((name, cls.to_string()));
+  }
+  let armed = c.plan.iter().find(|(k, _)| *k == i).map(|(_, w)| *w);
+  match armed {
+    None => Gate::Pass,
+    Some(w) => {
+      c.hits.push(Hit {
+        i,
+        name,
+        cls: cls.to_string(),
+        when: w,
+      });
+      let msg = format!("injected fault #{i} at {name} [{cls}] {}", w.s());
+      match w {
+        When::Before => Gate::Before(msg),
+        When::After => Gate::After(msg),
+      }
+    }
+  }
+}
+
+/// Path class of a storage path: wal / manifest / manifest.tmp / segment part / root / other.
+fn classify(path: &Path, root: &Path) -> String {
+  if path == root {
+    return "root".into();
+  }
+  let name = path.file_name().map(|n| n.to_string_lossy().to_string()).unwrap_or_default();
+  if let Some(parent) = path.parent() {
+    if let Some(pn) = parent.file_name().map(|n| n.to_string_lossy().to_string()) {
+      if pn.starts_with("seg_") && pn.ends_with("_vectors") {
+        return "seg.vectors".into();
+      }
+    }
+  }
+  match name.as_str() {
+    "wal.log" => "wal".into(),
+    "MANIFEST.json" => "manifest".into(),
+    "MANIFEST.tmp" => "manifest.tmp".into(),
+    n if n.starts_with("seg_") => {
+      if n.ends_with("_vectors") {
+        "seg.vectors".into()
+      } else {
+        match n.rsplit('.').next() {
+          Some("docs") => "seg.docs".into(),
+          Some("post") => "seg.post".into(),
+          Some("terms") => "seg.terms".into(),
+          Some("fast") => "seg.fast".into(),
+          Some("meta") => "seg.meta".into(),
+          _ => "seg.other".into(),
+        }
+      }
+    }
+    _ => "other".into(),
+  }
+}
+
+// -------------------------------------------------------------------------------------------------
+// FaultyStorage / FaultyFile
+// -------------------------------------------------------------------------------------------------
+
+pub struct FaultyStorage {
+  inner: Arc<dyn Storage>,
+  ctl: Shared,
+}
+
+impl FaultyStorage {
+  fn call<T>(&self, name: &'static str, path: &Path, f: impl FnOnce() -> Result<T>) -> Result<T> {
+    let cls = classify(path, self.inner.root());
+    match gate(&self.ctl, name, &cls) {
+      Gate::Pass => f(),
+      Gate::Before(m) => Err(anyhow!(m)),
+      Gate::After(m) => {
+        let _ = f();
+        Err(anyhow!(m))
+      }
+    }
+  }
+
+  fn wrap(&self, path: &Path, file: DynFile) -> DynFile {
+    Box::new(FaultyFile {
+      inner: file,
+      ctl: self.ctl.clone(),
+      cls: classify(path, self.inner.root()),
+    })
+  }
+}
+
+impl Storage for FaultyStorage {
+  fn root(&self) -> &Path {
+    self.inner.root()
+  }
+  fn ensure_dir(&self, path: &Path) -> Result<()> {
+    self.call("ensure_dir", path, || self.inner.ensure_dir(path))
+  }
+  fn exists(&self, path: &Path) -> bool {
+    // infallible in the trait: cannot report a failure, not a fault point
+    self.inner.exists(path)
+  }
+  fn open_read(&self, path: &Path) -> Result<DynFile> {
+    self.call("open_read", path, || self.inner.open_read(path)).map(|f| self.wrap(path, f))
+  }
+  fn open_write(&self, path: &Path) -> Result<DynFile> {
+    self.call("open_write", path, || self.inner.open_write(path)).map(|f| self.wrap(path, f))
+  }
+  fn open_append(&self, path: &Path) -> Result<DynFile> {
+    self.call("open_append", path, || self.inner.open_append(path)).map(|f| self.wrap(path, f))
+  }
+  fn read_to_end(&self, path: &Path) -> Result<Vec<u8>> {
+    self.call("read_to_end", path, || self.inner.read_to_end(path))
+  }
+  fn write_all(&self, path: &Path, data: &[u8]) -> Result<()> {
+    self.call("write_all", path, || self.inner.write_all(path, data))
+  }
+  fn atomic_write(&self, path: &Path, data: &[u8]) -> Result<()> {
+    self.call("atomic_write", path, || self.inner.atomic_write(path, data))
+  }
+  fn remove(&self, path: &Path) -> Result<()> {
+    self.call("remove", path, || self.inner.remove(path))
+  }
+  fn remove_dir_all(&self, path: &Path) -> Result<()> {
+    self.call("remove_dir_all", path, || self.inner.remove_dir_all(path))
+  }
+}
+
+struct FaultyFile {
+  inner: DynFile,
+  ctl: Shared,
+  cls: String,
+}
+
+impl FaultyFile {
+  fn io<T>(&mut self, name: &'static str, f: impl FnOnce(&mut DynFile) -> std::io::Result<T>) -> std::io::Result<T> {
+    match gate(&self.ctl, name, &self.cls) {
+      Gate::Pass => f(&mut self.inner),
+      Gate::Before(m) => Err(std::io::Error::new(std::io::ErrorKind::Other, m)),
+      Gate::After(m) => {
+        let _ = f(&mut self.inner);
+        Err(std::io::Error::new(std::io::ErrorKind::Other, m))
+      }
+    }
+  }
+  fn any(&mut self, name: &'static str, f: impl FnOnce(&mut DynFile) -> Result<()>) -> Result<()> {
+    match gate(&self.ctl, name, &self.cls) {
+      Gate::Pass => f(&mut self.inner),
+      Gate::Before(m) => Err(anyhow!(m)),
+      Gate::After(m) => {
+        let _ = f(&mut self.inner);
+        Err(anyhow!(m))
+      }
+    }
+  }
+}
+
+impl Read for FaultyFile {
+  fn read(&mut self, buf: &mut [u8]) -> std::io::Result<usize> {
+    self.io("file.read", |f| f.read(buf))
+  }
+}
+
+impl Write for FaultyFile {
+  fn write(&mut self, buf: &[u8]) -> std::io::Result<usize> {
+    self.io("file.write", |f| f.write(buf))
+  }
+  fn flush(&mut self) -> std::io::Result<()> {
+    self.io("file.flush", |f| f.flush())
+  }
+}
+
+impl Seek for FaultyFile {
+  fn seek(&mut self, pos: SeekFrom) -> std::io::Result<u64> {
+    self.io("file.seek", |f| f.seek(pos))
+  }
+}
+
+impl StorageFile for FaultyFile {
+  fn set_len(&mut self, len: u64) -> Result<()> {
+    self.any("file.set_len", |f| f.set_len(len))
+  }
+  fn sync_all(&mut self) -> Result<()> {
+    self.any("file.sync_all", |f| f.sync_all())
+  }
+}
+
+// -------------------------------------------------------------------------------------------------
+// scenarios
+// -------------------------------------------------------------------------------------------------
+
+#[derive(Clone, Debug)]
+enum Op {
+  NewWriter,
+  Add(String, u64),
+  Delete(Vec<String>),
+  Commit,
+  Rollback,
+  Compact,
+  Drop,
+}
+
+impl Op {
+  fn name(&self) -> &'static str {
+    match self {
+      Op::NewWriter => "new_writer",
+      Op::Add(..) => "add",
+      Op::Delete(..) => "delete",
+      Op::Commit => "commit",
+      Op::Rollback => "rollback",
+      Op::Compact => "compact",
+      Op::Drop => "drop",
+    }
+  }
+  fn call_json(&self, fin: bool) -> Value {
+    let (id, ver, ids): (String, u64, Vec<String>) = match self {
+      Op::Add(id, ver) => (id.clone(), *ver, vec![]),
+      Op::Delete(ids) => (String::new(), 0, ids.clone()),
+      _ => (String::new(), 0, vec![]),
+    };
+    json!({"ev": "call", "op": self.name(), "id": id, "ver": ver, "ids": ids, "final": fin})
+  }
+  fn to_json(&self) -> Value {
+    match self {
+      Op::Add(id, ver) => json!({"op": "add", "id": id, "ver": ver}),
+      Op::Delete(ids) => json!({"op": "delete", "ids": ids}),
+      o => json!({"op": o.name()}),
+    }
+  }
+  fn from_json(v: &Value) -> Result<Op> {
+    Ok(match v["op"].as_str().unwrap_or("") {
+      "new_writer" => Op::NewWriter,
+      "add" => Op::Add(v["id"].as_str().unwrap_or("a").to_string(), v["ver"].as_u64().unwrap_or(1)),
+      "delete" => Op::Delete(
+        v["ids"].as_array().map(|a| a.iter().filter_map(|x| x.as_str().map(String::from)).collect()).unwrap_or_default(),
+      ),
+      "commit" => Op::Commit,
+      "rollback" => Op::Rollback,
+      "compact" => Op::Compact,
+      "drop" => Op::Drop,
+      o => bail!("unknown op {o}"),
+    })
+  }
+}
+
+#[derive(Clone, Debug)]
+struct Scenario {
+  scn: usize,
+  storage: String,
+  /// executed fault-free and uncounted; ends with commit + drop, so nothing is queued afterwards
+  prefix: Vec<Op>,
+  ops: Vec<Op>,
+}
+
+const IDS3: [&str; 3] = ["a", "b", "c"];
+
+fn gen_scenario(scn: usize, seed: u64, max_ops: usize) -> Scenario {
+  let mut r = rng(seed, 3_000_000 + scn as u64);
+  let storage = if scn % 3 == 2 { "fs" } else { "memory" };
+  let mut ver = 0u64;
+  let mut prefix = Vec::new();
+  // every fourth scenario is a compaction scenario: two committed segments and a compact call
+  let compaction = scn % 4 == 1;
+  let batches = if compaction { 2 } else { [0usize, 1, 2, 2][r.gen_range(0..4)] };
+  if batches > 0 {
+    prefix.push(Op::NewWriter);
+    for b in 0..batches {
+      let n = r.gen_range(1..=2);
+      for _ in 0..n {
+        ver += 1;
+        prefix.push(Op::Add(pick(&mut r, &IDS3).to_string(), ver));
+      }
+      if b > 0 && chance(&mut r, 1, 3) {
+        prefix.push(Op::Delete(vec![pick(&mut r, &IDS3).to_string()]));
+      }
+      prefix.push(Op::Commit);
+    }
+    prefix.push(Op::Drop);
+  }
+  let n_ops = r.gen_range(4..=max_ops.max(4));
+  let mut ops = vec![Op::NewWriter];
+  // generation-time estimates (never used for judging): queued operations, segments, handle
+  let mut queued = 0usize;
+  let mut queued_adds = 0usize;
+  let mut segs = batches;
+  let mut handle = true;
+  let mut committed = false;
+  while ops.len() < n_ops {
+    if !handle {
+      ops.push(Op::NewWriter);
+      handle = true;
+      continue;
+    }
+    let last = ops.len() + 1 == n_ops;
+    if last && queued > 0 && !committed {
+      ops.push(Op::Commit);
+      break;
+    }
+    let weights: [(u32, u8); 6] = [
+      (35, 0),
+      (15, 1),
+      (if queued > 0 { 30 } else { 3 }, 2),
+      (if queued > 0 { 8 } else { 2 }, 3),
+      (if segs >= 2 { 18 } else { 2 }, 4),
+      (7, 5),
+    ];
+    let total: u32 = weights.iter().map(|w| w.0).sum();
+    let mut roll = r.gen_range(0..total);
+    let mut kind = 0u8;
+    for (w, k) in weights.iter() {
+      if roll < *w {
+        kind = *k;
+        break;
+      }
+      roll -= *w;
+    }
+    let op = match kind {
+      0 => {
+        ver += 1;
+        queued += 1;
+        queued_adds += 1;
+        Op::Add(pick(&mut r, &IDS3).to_string(), ver)
+      }
+      1 => {
+        queued += 1;
+        let n = if chance(&mut r, 1, 4) { 2 } else { 1 };
+        Op::Delete((0..n).map(|_| pick(&mut r, &IDS3).to_string()).collect())
+      }
+      2 => {
+        if queued > 0 {
+          committed = true;
+        }
+        if queued_adds > 0 {
+          segs += 1;
+        }
+        queued = 0;
+        queued_adds = 0;
+        Op::Commit
+      }
+      3 => {
+        queued = 0;
+        queued_adds = 0;
+        Op::Rollback
+      }
+      4 => {
+        if segs >= 2 {
+          segs = 1;
+        }
+        Op::Compact
+      }
+      _ => {
+        handle = false;
+        Op::Drop
+      }
+    };
+    ops.push(op);
+  }
+  if compaction && !ops.iter().any(|o| matches!(o, Op::Compact)) {
+    let at = r.gen_range(1..=ops.len());
+    ops.insert(at, Op::Compact);
+  }
+  Scenario {
+    scn,
+    storage: storage.to_string(),
+    prefix,
+    ops,
+  }
+}
+
+fn doc_for(id: &str, ver: u64) -> Value {
+  json!({"_id": id, "body": format!("w{ver} common {id}"), "ver": ver})
+}
+
+fn idver_json(l: &[(String, u64)]) -> Value {
+  Value::Array(l.iter().map(|(i, v)| json!({"id": i, "ver": v})).collect())
+}
+
+fn id_ver_list(idx: &Index) -> Result<Vec<(String, u64)>> {
+  Ok(
+    contents(idx)?
+      .into_iter()
+      .map(|(id, f)| {
+        let ver = f.get("ver").and_then(|v| v.as_u64()).unwrap_or(0);
+        (id, ver)
+      })
+      .collect(),
+  )
+}
+
+fn pending_json(entries: Vec<WalEntry>) -> Vec<Value> {
+  entries
+    .into_iter()
+    .filter_map(|e| match e {
+      WalEntry::AddDoc(d) => Some(json!({
+        "t": "add",
+        "id": d.fields.get("_id").and_then(|v| v.as_str()).unwrap_or("?"),
+        "ver": d.fields.get("ver").and_then(|v| v.as_u64()).unwrap_or(0),
+      })),
+      WalEntry::DeleteDocId(id) => Some(json!({"t": "del", "id": id, "ver": 0})),
+      WalEntry::Commit => None,
+    })
+    .collect()
+}
+
+/// Replace run-specific text (scratch path, segment uuids) so traces are reproducible.
+fn sanitise(text: &str, root: &Path) -> String {
+  let t = text.replace(&root.to_string_lossy().to_string(), "<root>");
+  let mut out = String::new();
+  let chars: Vec<char> = t.chars().collect();
+  let mut i = 0;
+  while i < chars.len() {
+    let mut j = i;
+    while j < chars.len() && chars[j].is_ascii_hexdigit() && !chars[j].is_ascii_uppercase() {
+      j += 1;
+    }
+    if j - i >= 32 {
+      out.push_str("<seg>");
+      i = j;
+    } else if j > i {
+      out.extend(&chars[i..j]);
+      i = j;
+    } else {
+      out.push(chars[i]);
+      i += 1;
+    }
+  }
+  out.chars().take(200).collect()
+}
+
+fn err_class(text: &str) -> &'static str {
+  if text.is_empty() {
+    "none"
+  } else if text.contains("injected fault") {
+    "injected"
+  } else {
+    "other"
+  }
+}
+
+struct Env {
+  root: PathBuf,
+  storage: Arc<dyn Storage>,
+  stype: StorageType,
+  ctl: Shared,
+}
+
+/// What is visible after a call, observed with the controller off.
+fn observe(env: &Env, idx: &Index) -> Value {
+  debug_assert!(!env.ctl.lock().on);
+  let root = env.root.clone();
+  // (1) a new reader on the same Index
+  let (reader_ok, reader, reader_err) = match catch_unwind(AssertUnwindSafe(|| id_ver_list(idx))) {
+    Ok(Ok(l)) => (true, l, String::new()),
+    Ok(Err(e)) => (false, vec![], sanitise(&format!("{e:#}"), &root)),
+    Err(_) => (false, vec![], "panic".to_string()),
+  };
+  // (2) reopen from "disk": a new Index over the same storage object
+  let mut reopen_ok = false;
+  let mut reopen = vec![];
+  let mut reopen_err = String::new();
+  let mut dangling: Vec<String> = Vec::new();
+  let storage = env.storage.clone();
+  let o = opts(&root, env.stype.clone());
+  let res = catch_unwind(AssertUnwindSafe(|| -> Result<(Vec<String>, Result<Vec<(String, u64)>>)> {
+    let idx2 = Index::open_with_storage(o, storage.clone())?;
+    let m = idx2.manifest();
+    let mut missing = Vec::new();
+    for s in m.segments.iter() {
+      for (part, p) in [
+        ("terms", &s.paths.terms),
+        ("post", &s.paths.postings),
+        ("docs", &s.paths.docstore),
+        ("fast", &s.paths.fast),
+        ("meta", &s.paths.meta),
+      ] {
+        if !storage.exists(Path::new(p)) {
+          missing.push(part.to_string());
+        }
+      }
+    }
+    Ok((missing, id_ver_list(&idx2)))
+  }));
+  match res {
+    Ok(Ok((missing, c))) => {
+      dangling = missing;
+      match c {
+        Ok(l) => {
+          reopen_ok = true;
+          reopen = l;
+        }
+        Err(e) => reopen_err = sanitise(&format!("read: {e:#}"), &root),
+      }
+    }
+    Ok(Err(e)) => {
+      reopen_err = sanitise(&format!("open: {e:#}"), &root);
+      dangling.push("manifest".into());
+    }
+    Err(_) => reopen_err = "panic".into(),
+  }
+  // (3) what a new writer would recover from the log
+  let (wal_ok, wal) = match catch_unwind(AssertUnwindSafe(|| {
+    Wal::last_pending_ops(env.storage.as_ref(), &root.join("wal.log"))
+  })) {
+    Ok(Ok(p)) => (true, pending_json(p)),
+    _ => (false, vec![]),
+  };
+  json!({
+    "reader_ok": reader_ok, "reader": idver_json(&reader), "reader_err": reader_err,
+    "reopen_ok": reopen_ok, "reopen": idver_json(&reopen), "reopen_err": reopen_err,
+    "dangling": dangling, "wal_ok": wal_ok, "wal": wal,
+  })
+}
+
+struct RunOut {
+  events: Vec<Value>,
+  n_calls: usize,
+  fired: usize,
+  panics: usize,
+  log: Vec<(&'static str, String)>,
+  api_calls: usize,
+}
+
+/// Execute one API call with the controller on; returns (ok, outcome, error text).
+fn api_call(
+  op: &Op,
+  env: &Env,
+  idx: &Index,
+  writer: &mut Option<IndexWriter>,
+  armed: bool,
+) -> (bool, &'static str, String) {
+  env.ctl.lock().on = armed;
+  let res = catch_unwind(AssertUnwindSafe(|| -> Result<()> {
+    match op {
+      Op::NewWriter => {
+        *writer = None;
+        *writer = Some(idx.writer()?);
+        Ok(())
+      }
+      Op::Add(id, ver) => writer.as_mut().unwrap().add_document(&doc_from_json(doc_for(id, *ver))).map(|_| ()),
+      Op::Delete(ids) => writer.as_mut().unwrap().delete_documents(ids),
+      Op::Commit => writer.as_mut().unwrap().commit(),
+      Op::Rollback => writer.as_mut().unwrap().rollback(),
+      Op::Compact => idx.compact(),
+      Op::Drop => {
+        *writer = None;
+        Ok(())
+      }
+    }
+  }));
+  env.ctl.lock().on = false;
+  match res {
+    Ok(Ok(())) => (true, "ok", String::new()),
+    Ok(Err(e)) => (false, "err", sanitise(&format!("{e:#}"), &env.root)),
+    Err(_) => (false, "panic", "panic".to_string()),
+  }
+}
+
+fn execute(sc: &Scenario, plan: &[(usize, When)], keep_log: bool) -> Result<RunOut> {
+  let scratch = Scratch::new("faults");
+  let root = scratch.join("idx");
+  let (inner, stype): (Arc<dyn Storage>, StorageType) = match sc.storage.as_str() {
+    "fs" => (Arc::new(FsStorage::new(root.clone())), StorageType::Filesystem),
+    _ => (Arc::new(InMemoryStorage::new(root.clone())), StorageType::InMemory),
+  };
+  let ctl: Shared = Arc::new(Mutex::new(Ctl {
+    plan: plan.to_vec(),
+    keep_log,
+    ..Default::default()
+  }));
+  let storage: Arc<dyn Storage> = Arc::new(FaultyStorage {
+    inner,
+    ctl: ctl.clone(),
+  });
+  let env = Env {
+    root: root.clone(),
+    storage: storage.clone(),
+    stype: stype.clone(),
+    ctl: ctl.clone(),
+  };
+  let schema = schema_from_json(schema_family(2));
+  let idx = Index::create_with_storage(&root, schema, opts(&root, stype), storage.clone())?;
+  let mut writer: Option<IndexWriter> = None;
+  // prefix: builds committed state, fault-free and uncounted
+  for op in sc.prefix.iter() {
+    let (ok, _, err) = api_call(op, &env, &idx, &mut writer, false);
+    if !ok {
+      bail!("scenario prefix failed at {}: {err}", op.name());
+    }
+  }
+  if writer.is_some() {
+    bail!("scenario prefix must end with drop");
+  }
+  let acked0 = id_ver_list(&idx)?;
+  let mut events: Vec<Value> = Vec::new();
+  events.push(json!({
+    "ev": "reset", "scn": sc.scn, "run": 0, "mult": 1, "storage": sc.storage,
+    "nfaults": plan.len(),
+    "faults": plan.iter().map(|(i, w)| json!({"i": i, "when": w.s()})).collect::<Vec<_>>(),
+    "acked": idver_json(&acked0),
+    "prefix_segments": idx.manifest().segments.len(),
+  }));
+  let mut panics = 0usize;
+  let mut api_calls = 0usize;
+  let mut dead = false;
+  let mut do_call = |op: &Op, fin: bool, writer: &mut Option<IndexWriter>, events: &mut Vec<Value>| -> bool {
+    events.push(op.call_json(fin));
+    let (ok, outcome, err) = api_call(op, &env, &idx, writer, !fin);
+    let hits: Vec<Hit> = std::mem::take(&mut ctl.lock().hits);
+    let mut ret = json!({
+      "ev": "ret", "ok": ok, "outcome": outcome, "err": err_class(&err), "errtext": err,
+      "hits": hits.iter().map(|h| json!({"i": h.i, "name": h.name, "cls": h.cls, "when": h.when.s()})).collect::<Vec<_>>(),
+    });
+    let obs = observe(&env, &idx);
+    for (k, v) in obs.as_object().unwrap() {
+      ret[k] = v.clone();
+    }
+    events.push(ret);
+    api_calls += 1;
+    outcome != "panic"
+  };
+  for op in sc.ops.iter() {
+    let needs = matches!(op, Op::Add(..) | Op::Delete(..) | Op::Commit | Op::Rollback);
+    if needs && writer.is_none() {
+      if !do_call(&Op::NewWriter, false, &mut writer, &mut events) {
+        dead = true;
+        break;
+      }
+      if writer.is_none() {
+        continue; // the implicit new_writer failed (fault inside it): the call cannot be made
+      }
+    }
+    if matches!(op, Op::Drop) && writer.is_none() {
+      continue;
+    }
+    if !do_call(op, false, &mut writer, &mut events) {
+      dead = true;
+      break;
+    }
+  }
+  if dead {
+    panics += 1;
+    // a handle that panicked mid-call is not used again; its Drop may panic too
+    let w = writer.take();
+    let _ = catch_unwind(AssertUnwindSafe(move || drop(w)));
+  } else {
+    // retry with faults off: whatever is still queued must be committable
+    if writer.is_none() {
+      do_call(&Op::NewWriter, true, &mut writer, &mut events);
+    }
+    if writer.is_some() {
+      do_call(&Op::Commit, true, &mut writer, &mut events);
+    }
+  }
+  drop(do_call);
+  let w = writer.take();
+  let _ = catch_unwind(AssertUnwindSafe(move || drop(w)));
+  let c = ctl.lock();
+  let fired = plan.iter().filter(|(i, _)| *i < c.count).count();
+  Ok(RunOut {
+    events,
+    n_calls: c.count,
+    fired,
+    panics,
+    log: c.log.clone(),
+    api_calls,
+  })
+}
+
+/// Key for de-duplication: the recorded events without call numbers.
+fn dedup_key(events: &[Value]) -> String {
+  fn strip(v: &Value) -> Value {
+    match v {
+      Value::Object(o) => Value::Object(
+        o.iter()
+          .map(|(k, x)| {
+            if k == "i" || k == "run" || k == "mult" {
+              (k.clone(), json!(0))
+            } else if k == "errtext" {
+              (k.clone(), json!(strip_numbers(x.as_str().unwrap_or(""))))
+            } else {
+              (k.clone(), strip(x))
+            }
+          })
+          .collect(),
+      ),
+      Value::Array(a) => Value::Array(a.iter().map(strip).collect()),
+      o => o.clone(),
+    }
+  }
+  serde_json::to_string(&Value::Array(events.iter().map(strip).collect())).unwrap()
+}
+
+fn strip_numbers(s: &str) -> String {
+  // "injected fault #17 at ..." -> "injected fault # at ..."
+  let mut out = String::new();
+  let mut after_hash = false;
+  for c in s.chars() {
+    if after_hash && c.is_ascii_digit() {
+      continue;
+    }
+    after_hash = c == '#';
+    out.push(c);
+  }
+  out
+}
+
+struct Totals {
+  runs: usize,
+  distinct: usize,
+  single_runs: usize,
+  pair_runs: usize,
+  unfired: usize,
+  panics: usize,
+  api_calls: usize,
+  err_returns: usize,
+}
+
+fn emit_group(tr: &mut Tracer, run_no: &mut usize, mut events: Vec<Value>, mult: usize) {
+  *run_no += 1;
+  events[0]["run"] = json!(*run_no);
+  events[0]["mult"] = json!(mult);
+  for e in events {
+    tr.emit(e);
+  }
+}
+
+#[allow(clippy::too_many_arguments)]
+fn run_scenario(
+  sc: &Scenario,
+  tr: &mut Tracer,
+  tot: &mut Totals,
+  run_no: &mut usize,
+  pairs: bool,
+  pair_cap: usize,
+  seed: u64,
+  dedup: bool,
+  samples: &mut Vec<Value>,
+) -> Result<Value> {
+  let clean = execute(sc, &[], true)?;
+  let n = clean.n_calls;
+  let mut groups: BTreeMap<String, (Vec<Value>, usize)> = BTreeMap::new();
+  let mut order: Vec<String> = Vec::new();
+  let add = |out: RunOut, tot: &mut Totals, groups: &mut BTreeMap<String, (Vec<Value>, usize)>, order: &mut Vec<String>, n_armed: usize| {
+    tot.runs += 1;
+    tot.panics += out.panics;
+    tot.api_calls += out.api_calls;
+    tot.unfired += n_armed - out.fired;
+    tot.err_returns += out.events.iter().filter(|e| e["ev"] == "ret" && e["ok"] == false).count();
+    let key = if dedup { dedup_key(&out.events) } else { format!("{}", tot.runs) };
+    match groups.get_mut(&key) {
+      Some(g) => g.1 += 1,
+      None => {
+        order.push(key.clone());
+        groups.insert(key, (out.events, 1));
+      }
+    }
+  };
+  let n_clean_calls = clean.n_calls;
+  let log = clean.log.clone();
+  add(clean, tot, &mut groups, &mut order, 0);
+  let mut per_single: Vec<(usize, When, usize)> = Vec::new();
+  for i in 0..n {
+    for w in [When::Before, When::After] {
+      let out = execute(sc, &[(i, w)], false)?;
+      per_single.push((i, w, out.n_calls));
+      tot.single_runs += 1;
+      add(out, tot, &mut groups, &mut order, 1);
+    }
+  }
+  let mut n_pairs = 0usize;
+  if pairs {
+    // second fault ranges over the calls of the run that already has the first fault armed
+    let mut all: Vec<(usize, When, usize, When)> = Vec::new();
+    for (i, w, ni) in per_single.iter() {
+      for j in (i + 1)..*ni {
+        for w2 in [When::Before, When::After] {
+          all.push((*i, *w, j, w2));
+        }
+      }
+    }
+    if all.len() > pair_cap {
+      // seeded subsample, but always keep pairs whose second fault lies in the region only an
+      // error path reaches (j >= clean count) or follows the first closely (same API call, mostly)
+      let mut r = rng(seed, 9_000_000 + sc.scn as u64);
+      let (near, far): (Vec<_>, Vec<_>) = all.into_iter().partition(|(i, _, j, _)| *j >= n_clean_calls || *j <= *i + 12);
+      let mut chosen = near;
+      if chosen.len() > pair_cap {
+        let keep = pair_cap as f64 / chosen.len() as f64;
+        chosen.retain(|_| r.gen_bool(keep));
+      } else {
+        let room = pair_cap - chosen.len();
+        let keep = (room as f64 / far.len().max(1) as f64).min(1.0);
+        chosen.extend(far.into_iter().filter(|_| r.gen_bool(keep)));
+      }
+      all = chosen;
+    }
+    for (i, w, j, w2) in all {
+      let out = execute(sc, &[(i, w), (j, w2)], false)?;
+      n_pairs += 1;
+      tot.pair_runs += 1;
+      add(out, tot, &mut groups, &mut order, 2);
+    }
+  }
+  tot.distinct += groups.len();
+  for key in order {
+    let (events, mult) = groups.remove(&key).unwrap();
+    if samples.len() < 4 && events[0]["nfaults"].as_u64().unwrap_or(0) > 0 && events.iter().any(|e| e["ev"] == "ret" && e["ok"] == false) {
+      let calls: Vec<Value> = events
+        .iter()
+        .filter(|e| e["ev"] == "ret")
+        .map(|e| json!({"ok": e["ok"], "hits": e["hits"], "reader": e["reader"], "reopen": e["reopen"], "dangling": e["dangling"], "wal": e["wal"]}))
+        .collect();
+      samples.push(json!({
+        "scn": sc.scn, "storage": sc.storage, "faults": events[0]["faults"],
+        "prefix": sc.prefix.iter().map(|o| o.to_json()).collect::<Vec<_>>(),
+        "ops": sc.ops.iter().map(|o| o.to_json()).collect::<Vec<_>>(),
+        "after_each_call": calls,
+      }));
+    }
+    emit_group(tr, run_no, events, mult);
+  }
+  let mut by_name: BTreeMap<String, usize> = BTreeMap::new();
+  for (name, cls) in log.iter() {
+    *by_name.entry(format!("{name}:{cls}")).or_default() += 1;
+  }
+  Ok(json!({
+    "scn": sc.scn, "storage": sc.storage, "storage_calls": n, "pairs": n_pairs,
+    "prefix": sc.prefix.iter().map(|o| o.to_json()).collect::<Vec<_>>(),
+    "ops": sc.ops.iter().map(|o| o.to_json()).collect::<Vec<_>>(),
+    "fault_points": by_name,
+  }))
+}
+
+pub fn main(args: &Args) -> Result<()> {
+  let seed = args.u64("seed", 1);
+  let out = args.str("out", "/verif/out/faults.ndjson");
+  let n_scn = args.usize("scenarios", 8);
+  let max_ops = args.usize("ops", 6);
+  let max_calls = args.usize("max-calls", 400);
+  let n_pairs_scn = args.usize("pairs", 0);
+  let n_pairs_fs = args.usize("pairs-fs", 0);
+  let pair_min_calls = args.usize("pair-min-calls", 40);
+  let pair_cap = args.usize("pair-cap", 4000);
+  let dedup = !args.flag("no-dedup");
+  // a panic of the code under test is data; keep stderr quiet
+  std::panic::set_hook(Box::new(|_| {}));
+  let mut tr = Tracer::create(Path::new(&out))?;
+  let mut tot = Totals {
+    runs: 0,
+    distinct: 0,
+    single_runs: 0,
+    pair_runs: 0,
+    unfired: 0,
+    panics: 0,
+    api_calls: 0,
+    err_returns: 0,
+  };
+  let mut run_no = 0usize;
+  let mut scn_info: Vec<Value> = Vec::new();
+  let mut samples: Vec<Value> = Vec::new();
+  let mut scenarios: Vec<Scenario> = Vec::new();
+  if let Some(path) = args.get("script") {
+    // explicit scenarios (witness replay): one JSON object per line
+    // {"storage": "memory", "prefix": [..ops..], "ops": [..ops..], "faults": [[i, "after"], ..]}
+    let text = std::fs::read_to_string(path)?;
+    for (k, line) in text.lines().filter(|l| !l.trim().is_empty()).enumerate() {
+      let v: Value = serde_json::from_str(line)?;
+      let parse = |key: &str| -> Result<Vec<Op>> {
+        v[key].as_array().map(|a| a.iter().map(Op::from_json).collect()).unwrap_or(Ok(vec![]))
+      };
+      let sc = Scenario {
+        scn: k,
+        storage: v["storage"].as_str().unwrap_or("memory").to_string(),
+        prefix: parse("prefix")?,
+        ops: parse("ops")?,
+      };
+      if let Some(f) = v.get("faults").and_then(|f| f.as_array()) {
+        // a fault is [call number, when] or - robust against changes of the call count -
+        // [trait call, path class, k, when]: the k-th such call after the previous fault
+        let mut plan: Vec<(usize, When)> = Vec::new();
+        for p in f.iter() {
+          if p[0].is_u64() {
+            plan.push((p[0].as_u64().unwrap_or(0) as usize, When::parse(p[1].as_str().unwrap_or("before"))?));
+            continue;
+          }
+          let (name, cls) = (p[0].as_str().unwrap_or(""), p[1].as_str().unwrap_or(""));
+          let k = p[2].as_u64().unwrap_or(1).max(1) as usize;
+          let from = plan.last().map(|(i, _)| i + 1).unwrap_or(0);
+          let probe = execute(&sc, &plan, true)?;
+          let at = probe
+            .log
+            .iter()
+            .enumerate()
+            .skip(from)
+            .filter(|(_, (n, c))| *n == name && c == cls)
+            .map(|(i, _)| i)
+            .nth(k - 1)
+            .ok_or_else(|| anyhow!("script: no call {name} [{cls}] #{k} after call {from}"))?;
+          plan.push((at, When::parse(p[3].as_str().unwrap_or("before"))?));
+        }
+        let o = execute(&sc, &plan, true)?;
+        if args.flag("list") {
+          for (i, (name, cls)) in o.log.iter().enumerate() {
+            eprintln!("{i:4} {name} {cls}");
+          }
+        }
+        tot.runs += 1;
+        tot.distinct += 1;
+        tot.panics += o.panics;
+        emit_group(&mut tr, &mut run_no, o.events, 1);
+        scn_info.push(json!({"scn": k, "storage_calls": o.n_calls}));
+      } else {
+        scenarios.push(sc);
+      }
+    }
+  } else {
+    let mut k = 0usize;
+    while scenarios.len() < n_scn && k < n_scn * 20 {
+      let sc = gen_scenario(k, seed, max_ops);
+      k += 1;
+      scenarios.push(sc);
+    }
+  }
+  // scenarios with too many storage calls are skipped (counted), not truncated
+  let mut counts: Vec<usize> = Vec::new();
+  for sc in scenarios.iter() {
+    counts.push(execute(sc, &[], false)?.n_calls);
+  }
+  // ordered pairs are enumerated on the smallest scenarios that still contain real work
+  let mut pair_set: std::collections::BTreeSet<usize> = std::collections::BTreeSet::new();
+  for (kind, want) in [("memory", n_pairs_scn), ("fs", n_pairs_fs)] {
+    let mut cand: Vec<(usize, usize)> = scenarios
+      .iter()
+      .enumerate()
+      .filter(|(k, sc)| sc.storage == kind && counts[*k] >= pair_min_calls && counts[*k] <= max_calls)
+      .map(|(k, _)| (counts[k], k))
+      .collect();
+    cand.sort();
+    for (_, k) in cand.into_iter().take(want) {
+      pair_set.insert(k);
+    }
+  }
+  for (pos, sc) in scenarios.iter().enumerate() {
+    if counts[pos] > max_calls {
+      scn_info.push(json!({"scn": sc.scn, "storage_calls": counts[pos], "skipped": true}));
+      continue;
+    }
+    let info = run_scenario(sc, &mut tr, &mut tot, &mut run_no, pair_set.contains(&pos), pair_cap, seed, dedup, &mut samples)?;
+    scn_info.push(info);
+  }
+  let lines = tr.finish();
+  println!(
+    "{}",
+    json!({
+      "scenarios": scn_info.iter().filter(|s| s.get("skipped").is_none()).count(),
+      "events": lines, "runs": tot.runs, "distinct_runs": tot.distinct,
+      "single_fault_runs": tot.single_runs, "pair_fault_runs": tot.pair_runs,
+      "unfired": tot.unfired, "panics": tot.panics, "api_calls": tot.api_calls,
+      "err_returns": tot.err_returns,
+      "scenario_info": scn_info, "samples": samples, "out": out,
+    })
+  );
+  Ok(())
 }
